@@ -577,7 +577,7 @@ class SwitchController(MpfController):
         # registered.
         if ms:  # only do this for handlers that have delays
             current_time = self.machine.clock.get_time()
-            if switch.last_change > current_time - ms and state == switch.state:
+            if switch.last_change > current_time - (ms / 1000.0) and state == switch.state:
                 # figure out when this handler should fire based on the
                 # switch's original activation time.
                 key = switch.last_change + (ms / 1000.0)
